@@ -1,4 +1,6 @@
 import FpgoVerif.Proofs.C15Mailbox
+import FpgoVerif.Proofs.C15MailboxProgress
+import FpgoVerif.Proofs.C15BcqProgress
 import FpgoVerif.Proofs.C15Bcq
 import FpgoVerif.Proofs.C15Cor
 import FpgoVerif.Proofs.C15Pool
@@ -40,13 +42,14 @@ theorem C15_mailbox_after_dropped {cap r s m ch s' nx} (h : Mb.Reach cap r s) (h
   obtain ⟨rfl, rfl⟩ := hs1
   simp
 
-/-- no deadlock: while any Post/Send, the Close or a callback is in progress some goroutine can step
-    (callbacks terminate = the gate is open) — in particular a sender blocked in the send is released by the
-    consumer or, after Close, by the recovered panic -/
+/-- no deadlock: while any Post/Send, the Close or a callback is in progress there is an occupied program-counter
+    kind whose goroutine can take its next atom — whatever message it carries (the counters do not record it);
+    callbacks terminate = the gate is open.  In particular a sender blocked in the send is released by the
+    consumer or, after Close, by the recovered panic. -/
 theorem C15_mailbox_nodeadlock {cap s} (h : Mb.Reach cap true s) (hg : s.gate = true)
     (hb : 0 < s.cnt .p0 ∨ 0 < s.cnt .p1 ∨ 0 < s.cnt .c0 ∨ 0 < s.cnt .c1 ∨ 0 < s.cnt .r1) :
-    ∃ pc ch s' nx, Mb.gstep s pc ch = some (s', nx) :=
-  Mb.progress (Mb.inv_reach h) (Mb.recovers_const h) hg hb
+    ∃ k, 0 < s.cnt k ∧ ∀ pc, Mb.kind pc = k → ∃ s' nx, Mb.gstep s pc false = some (s', nx) :=
+  Mb.progressK (Mb.inv_reach h) (Mb.recovers_const h) hg hb
 
 /-- non-vacuity: a state with a sender past the check while Close is half done is reachable -/
 example : ∃ s, Mb.Reach 1 true s ∧ 0 < s.cnt .p1 ∧ 0 < s.cnt .c1 := by
@@ -113,11 +116,30 @@ theorem C15_bcq_after_reports {c b s ch s' nx} (h : Bq.Reach c b true true s) (h
     simp [Bq.step, hf] at hs1; exact hs1.2.symm
 
 /-- no deadlock: once Close has begun, as long as any goroutine is inside the queue (a user mid-call, the closer,
-    the loader) some goroutine can step — blocked consumers are released by the closed channel, lock waiters by
-    the lock holder, which never blocks -/
+    the loader) there is an occupied program-counter kind whose goroutine can take its next atom — whichever
+    operation (Take / TakeWithTimeout / GetChannel …) or value it carries, and without any timeout firing
+    (`choice = false`): blocked consumers are released by the closed channel, lock waiters by the lock holder,
+    which never blocks -/
 theorem C15_bcq_nodeadlock {c b s} (h : Bq.Reach c b true true s) (hcs : s.closeStarted = true)
-    (hb : ∃ k, 0 < s.cnt k) : ∃ pc ch s' nx, Bq.gstep s pc ch = some (s', nx) :=
-  Bq.progress (Bq.inv_reach h) hcs hb
+    (hb : ∃ k, 0 < s.cnt k) :
+    ∃ k, 0 < s.cnt k ∧ ∀ pc, Bq.kind pc = k → ∃ s' nx, Bq.gstep s pc false = some (s', nx) :=
+  Bq.progressK (Bq.inv_reach h) hcs hb
+
+/-- non-vacuity: two consumers blocked in Take on the empty queue while the Close has set the flag -/
+example : ∃ s, Bq.Reach 1 1 true true s ∧ s.closeStarted = true ∧ 1 < s.cnt .rcv ∧ 0 < s.cnt .c1 := by
+  let acts : List (Option Bool × Bq.PC) :=
+    [(none, .t0 .take), (some false, .t0 .take), (some false, .n1 .take), (some false, .n2 .take),
+     (none, .t0 .take), (some false, .t0 .take), (some false, .n1 .take), (some false, .n2 .take),
+     (none, .c0), (some false, .c0)]
+  have h : ((Bq.runActs (Bq.init 1 1 true true) acts).map (fun s => s.closeStarted && decide (1 < s.cnt .rcv) &&
+      decide (0 < s.cnt .c1))) = some true := by decide
+  cases hr : Bq.runActs (Bq.init 1 1 true true) acts with
+  | none => simp [hr] at h
+  | some s =>
+    refine ⟨s, Bq.runActs_reach acts Bq.Reach.init hr, ?_⟩
+    simp [hr] at h
+    obtain ⟨⟨h1, h2⟩, h3⟩ := h
+    exact ⟨h1, h2, h3⟩
 
 /-! ## Coroutines -/
 
